@@ -74,12 +74,16 @@ def generate(rng, tier, index):
     T = int(rng.integers(2, 9))
     faces = specgen.rand_faces(rng, kinds_pair=("periodic",), kinds_single=("pec", "pmc", "none"), pml=(2, 3))
     shape = specgen.rand_shape(rng, 3, 8)
-    # one run in four is placed with config.symmetry on one axis (electric plane: mirror halo; magnetic plane: zero halo);
-    # `shape` is then the reduced (kept upper-half) shape and the spec carries the doubled one
-    sym_axis = int(rng.integers(0, 3)) if index % 4 == 3 else None
-    sym_wall = (-1 if rng.uniform() < 0.75 else 1) if sym_axis is not None else 0
-    if sym_axis is not None:
-        ax = "xyz"[sym_axis]
+    # one run in four is placed with config.symmetry on one, two or three axes (electric plane: mirror halo; magnetic plane:
+    # zero halo; two electric planes share an edge whose halo is the double mirror); `shape` is then the reduced (kept
+    # upper-half) shape and the spec carries the doubled one
+    sym_axes = []
+    if index % 4 == 3:
+        n_sym = int(specgen.choice(rng, [1, 1, 2, 2, 3]))
+        sym_axes = sorted(int(x) for x in rng.choice(3, size=n_sym, replace=False))
+    sym_walls = {a: (-1 if rng.uniform() < 0.75 else 1) for a in sym_axes}
+    for a in sym_axes:
+        ax = "xyz"[a]
         faces[f"min_{ax}"] = {"kind": "none"}
         k = specgen.choice(rng, ["pec", "pmc", "none", "pml"])
         faces[f"max_{ax}"] = {"kind": k, **({"thickness": 2} if k == "pml" else {})}
@@ -88,34 +92,39 @@ def generate(rng, tier, index):
         shape[a] = max(shape[a], t + 2)
     grid = specgen.rand_grid(rng, shape, 0.5)
     full_shape = list(shape)
-    if sym_axis is not None:
-        full_shape[sym_axis] = 2 * shape[sym_axis]
+    for a in sym_axes:
+        full_shape[a] = 2 * shape[a]
         if grid["kind"] == "rect":  # mirror-symmetric widths about the plane
-            w = np.diff(np.asarray(grid["edges"][sym_axis]))
+            w = np.diff(np.asarray(grid["edges"][a]))
             w = np.concatenate([w[::-1], w])
             e = np.concatenate([[0.0], np.cumsum(w)])
-            grid["edges"][sym_axis] = [float(x) for x in (e - e[-1] / 2)]
+            grid["edges"][a] = [float(x) for x in (e - e[-1] / 2)]
     spec = {"shape": full_shape, "grid": grid, "steps": T, "faces": faces, "key": int(rng.integers(0, 2**31))}
-    if sym_axis is not None:
-        spec["symmetry"] = [sym_wall if a == sym_axis else 0 for a in range(3)]
+    if sym_axes:
+        spec["symmetry"] = [sym_walls.get(a, 0) for a in range(3)]
     spec["materials"] = {"mode": "random", "seed": int(rng.integers(0, 2**31)), "eps_tier": "iso"}
     dip_region = specgen.inner_region(shape, faces)
-    if sym_axis is not None and dip_region[sym_axis][1] - dip_region[sym_axis][0] > 1:
-        dip_region[sym_axis][0] += 1  # the library rejects a dipole sitting on the symmetry plane
+    for a in sym_axes:
+        if dip_region[a][1] - dip_region[a][0] > 1:
+            dip_region[a][0] += 1  # the library rejects a dipole sitting on the symmetry plane
     dip = specgen.rand_dipole(rng, "s0", shape, dip_region, T)
     spec["sources"] = [dip] if rng.uniform() < 0.5 else []
     dets = []
     classes = [specgen.choice(rng, list(BOX_CLASSES)) for _ in range(int(rng.integers(3, 6)))]
+    if len(sym_axes) >= 2:
+        classes[0] = "whole"  # always one detector that touches every symmetry plane and their shared edges
     for i, cls in enumerate(classes):
         d = {"kind": "field", "name": f"d{i}", "box": _box(rng, shape, cls), "box_class": cls, "exact": bool(rng.uniform() < 0.75), "components": specgen.rand_components(rng), "reduce": False}
+        if len(sym_axes) >= 2 and i == 0:
+            d["exact"], d["components"] = True, list(specgen.ALL_COMPONENTS)
         sw = specgen.rand_switch(rng, T, p_default=0.5, need_active=True)
         if sw:
             d["switch"] = sw
         dets.append(d)
-    if sym_axis is not None:  # boxes were drawn in reduced coordinates: shift them into the kept upper half of the full domain
-        n = shape[sym_axis]
+    for a in sym_axes:  # boxes were drawn in reduced coordinates: shift them into the kept upper half of the full domain
+        n = shape[a]
         for o in dets + spec["sources"]:
-            o["box"][sym_axis] = [o["box"][sym_axis][0] + n, o["box"][sym_axis][1] + n]
+            o["box"][a] = [o["box"][a][0] + n, o["box"][a][1] + n]
     spec["detectors"] = dets
     spec["init_seed"] = int(rng.integers(0, 2**31))
     spec["_min_detectors"] = 1
@@ -211,6 +220,8 @@ def execute(spec):
             stats["probe_magnetic_plane_zero_halo_read"] = stats.get("probe_magnetic_plane_zero_halo_read", 0) + 1
         k = "probe_exact_interior_path" if (d["exact"] and interior) else "probe_exact_edge_path" if d["exact"] else "probe_raw"
         stats[k] = stats.get(k, 0) + 1
+    stats["probe_two_or_more_symmetry_planes"] = int(sum(1 for x in sym if x != 0) >= 2)
+    stats["probe_two_electric_planes_shared_edge_read"] = int(sum(1 for x in sym if x == -1) >= 2 and any(d["exact"] and all(d["box"][a][0] == shift[a] for a in range(3) if sym[a] == -1) for d in spec["detectors"]))
     stats["probe_nonuniform"] = int(spec["grid"]["kind"] == "rect")
     stats["probe_periodic_halo"] = int(any(wrap))
     stats["records_checked"] = checked
